@@ -1,6 +1,7 @@
 package modules
 
 import (
+	"context"
 	"sync/atomic"
 	"time"
 
@@ -48,4 +49,12 @@ func VerifSimMarkStopped(m *Module) { m.stopFlag.Set() }
 func VerifSimSetClearanceQueue(n int) {
 	mediumPriorityClearance = make(chan chan struct{}, n)
 	lowPriorityClearance = make(chan chan struct{}, n)
+}
+
+// VerifSimRenewContext gives the module a fresh context (contexts create their Done channel on first use: one that
+// was first used in an earlier simulated run belongs to that run).
+func VerifSimRenewContext(m *Module) {
+	m.Lock()
+	defer m.Unlock()
+	m.Ctx, m.cancelCtx = context.WithCancel(context.Background())
 }
